@@ -2179,6 +2179,163 @@ example := C07.huberG_groupObj_minimises_gamma0 (⟨Real.sqrt, 0⟩ : Env ℝ) [
   (by intro i hi; interval_cases i <;> simp [Finset.sum_range_succ])
 
 
+/-! ### ROUND 5: the calculus nodes `.trans`, `.leftScale`, `.argScale` of the EXECUTED `Fn.prox` -/
+
+/-- `FunctionalTranslation.proximal` / `proximal_translation` as EXECUTED by the `.trans` node of
+`Fn.prox` (float step), for ANY sub-tree `f`, any lists and weights: if the proximal point the
+sub-tree computes at `x − y` is the proximal point of `F` there, then the point computed by
+`.trans f y` at `x` is the proximal point of `z ↦ F(z − y)` (same step, same weighted norm, with
+the quadratic gap).  Directly on the executed `Fn`, not on `PTree`. -/
+theorem C07.fn_trans_minimises (E : Env K) (f : Fn K) (y w x : List K) (s : K) (F : List K → K)
+    (hy : y.length = x.length)
+    (h : IsListProx w F s (List.zipWith (· - ·) x y)
+      (f.prox E w (.sc s) (List.zipWith (· - ·) x y))) :
+    IsListProx w (fun z => F (List.zipWith (· - ·) z y)) s x
+      (Fn.prox E (.trans f y) w (.sc s) x) := by
+  have hp : Fn.prox E (.trans f y) w (.sc s) x
+      = List.zipWith (· + ·) y (f.prox E w (.sc s) (List.zipWith (· - ·) x y)) := rfl
+  set q := f.prox E w (.sc s) (List.zipWith (· - ·) x y) with hq
+  obtain ⟨hlen, hmin⟩ := h
+  have hxy : (List.zipWith (· - ·) x y).length = x.length := by simp [hy]
+  rw [hxy] at hlen hmin
+  rw [hp]
+  have hplen : (List.zipWith (· + ·) y q).length = x.length := by simp [hy, hlen]
+  refine ⟨hplen, ?_⟩
+  intro z hz
+  have hzy : (List.zipWith (· - ·) z y).length = x.length := by simp [hy, hz]
+  have key := hmin (List.zipWith (· - ·) z y) hzy
+  have hpy : List.zipWith (· - ·) (List.zipWith (· + ·) y q) y = q := by
+    apply List.ext_getElem (by simp [hy, hlen])
+    intro i h1 h2
+    simp
+  beta_reduce
+  rw [hpy]
+  refine le_trans (le_of_eq ?_) (le_trans key (le_of_eq ?_))
+  · congr 1
+    apply Finset.sum_congr rfl
+    intro i hi
+    have hi' := mem_range.mp hi
+    rw [zipWith_getD' _ _ _ i (by rw [hy]; exact hi') (by rw [hlen]; exact hi'),
+      zipWith_getD' _ _ _ i hi' (by rw [hy]; exact hi'),
+      zipWith_getD' _ _ _ i (by rw [hz]; exact hi') (by rw [hy]; exact hi')]
+    ring
+  · congr 1
+    apply Finset.sum_congr rfl
+    intro i hi
+    have hi' := mem_range.mp hi
+    rw [zipWith_getD' _ _ _ i hi' (by rw [hy]; exact hi'),
+      zipWith_getD' _ _ _ i (by rw [hz]; exact hi') (by rw [hy]; exact hi')]
+    ring
+
+/-- `FunctionalLeftScalarMult.proximal` as EXECUTED by the `.leftScale` node (`c > 0`, float
+step): if the sub-tree's point with step `σ·c` is the proximal point of `F` with that step, then
+the node's point is the proximal point of `c·F` with step `σ`. -/
+theorem C07.fn_leftScale_minimises (E : Env K) (f : Fn K) (c : K) (w x : List K) (s : K)
+    (F : List K → K) (hc : 0 < c) (hs : 0 < s)
+    (h : IsListProx w F (s * c) x (f.prox E w (.sc (s * c)) x)) :
+    IsListProx w (fun z => c * F z) s x (Fn.prox E (.leftScale f c) w (.sc s) x) := by
+  have hp : Fn.prox E (.leftScale f c) w (.sc s) x = f.prox E w (.sc (s * c)) x := rfl
+  rw [hp]
+  obtain ⟨hlen, hmin⟩ := h
+  refine ⟨hlen, ?_⟩
+  intro z hz
+  have key := hmin z hz
+  have e : ∀ A : ℕ → K, ∑ i ∈ range x.length, w.getD i 0 * (A i / (2 * s))
+      = c * ∑ i ∈ range x.length, w.getD i 0 * (A i / (2 * (s * c))) := by
+    intro A
+    rw [Finset.mul_sum]
+    apply Finset.sum_congr rfl
+    intro i _
+    field_simp
+  rw [e, e]
+  have := mul_le_mul_of_nonneg_left key hc.le
+  linarith
+
+/-- `proximal_arg_scaling` (`FunctionalRightScalarMult.proximal`) as EXECUTED by the `.argScale`
+node including its guard (`c ≠ 0`, float step): if the sub-tree's point at `c·x` with step
+`σ·c²` is the proximal point of `F`, then `(1/c)·` that point is the proximal point of
+`z ↦ F(c·z)` at `x` with step `σ`. -/
+theorem C07.fn_argScale_minimises (E : Env K) (f : Fn K) (c : K) (w x : List K) (s : K)
+    (F : List K → K) (hc : c ≠ 0) (hs : 0 < s)
+    (h : IsListProx w F (s * (c * c)) (x.map (c * ·))
+      (f.prox E w (.sc (s * (c * c))) (x.map (c * ·)))) :
+    IsListProx w (fun z => F (z.map (c * ·))) s x (Fn.prox E (.argScale f c) w (.sc s) x) := by
+  have hp : Fn.prox E (.argScale f c) w (.sc s) x
+      = (f.prox E w (.sc (s * (c * c))) (x.map (c * ·))).map ((1 / c) * ·) := by
+    rcases lt_or_gt_of_ne hc with h' | h'
+    · simp only [Fn.prox, proxArgScaling0, if_pos h']; rfl
+    · simp only [Fn.prox, proxArgScaling0, if_neg (not_lt.mpr h'.le), if_pos h']; rfl
+  rw [hp]
+  set q := f.prox E w (.sc (s * (c * c))) (x.map (c * ·)) with hq
+  obtain ⟨hlen, hmin⟩ := h
+  rw [List.length_map] at hlen hmin
+  refine ⟨by rw [List.length_map, hlen], ?_⟩
+  intro z hz
+  have key := hmin (z.map (c * ·)) (by rw [List.length_map, hz])
+  have hqq : (q.map ((1 / c) * ·)).map (c * ·) = q := by
+    rw [List.map_map]
+    conv_rhs => rw [← List.map_id q]
+    apply List.map_congr_left
+    intro a _
+    simp only [Function.comp, id]
+    field_simp
+  beta_reduce
+  rw [hqq]
+  have hcc : 0 < c * c := mul_self_pos.mpr hc
+  refine le_trans (le_of_eq ?_) (le_trans key (le_of_eq ?_))
+  · congr 1
+    apply Finset.sum_congr rfl
+    intro i hi
+    have hi' := mem_range.mp hi
+    rw [map_getD' q _ i (by rw [hlen]; exact hi'), map_getD' x _ i hi',
+      map_getD' z _ i (by rw [hz]; exact hi')]
+    field_simp
+  · congr 1
+    apply Finset.sum_congr rfl
+    intro i hi
+    have hi' := mem_range.mp hi
+    rw [map_getD' x _ i hi', map_getD' z _ i (by rw [hz]; exact hi')]
+    field_simp
+
+/-- Leaf contract for the calculus theorems: the executed L1 leaf computes the proximal point
+(in the sense of `IsListProx`) of `z ↦ Σ w_i λ|z_i − g_i|` — `C07.l1_list_minimises` repackaged. -/
+theorem C07.l1_isListProx (E : Env K) (lam s : K) (g : Option (List K)) (w x : List K)
+    (hl : 0 < lam) (hs : 0 < s) (hw : ∀ i < x.length, 0 ≤ w.getD i 0) :
+    IsListProx w (fun z => ∑ i ∈ range x.length, w.getD i 0 * (lam * |z.getD i 0 - gAt g i|)) s x
+      (Fn.prox E (.l1 lam g) w (.sc s) x) := by
+  refine ⟨(C07.l1_list_minimises E lam g w x [] (.sc s) hl hw (fun _ _ => hs)).1, ?_⟩
+  intro z _
+  have h := (C07.l1_list_minimises E lam g w x z (.sc s) hl hw (fun _ _ => hs)).2
+  simp only [mul_add, Finset.sum_add_distrib, Sig.at] at h
+  exact h
+
+/-- UNCONDITIONAL optimality of an executed four-node tree, all inputs: for
+`(a * L1Norm(λ, g)(c ·)).translated(y)` (`a > 0`, `c ≠ 0`, any data term, any length, weights
+`≥ 0`, float step) the point computed by `Fn.prox` through `.trans`, `.leftScale`, `.argScale`
+and the `.l1` leaf is the proximal point of `z ↦ a Σ w_i λ|c (z_i − y_i) − g_i|`: the three
+calculus theorems chained with the leaf theorem. -/
+theorem C07.fn_trans_lscale_argscale_l1_minimises (E : Env K) (lam a c s : K) (g : Option (List K))
+    (y w x : List K) (hy : y.length = x.length) (hl : 0 < lam) (ha : 0 < a) (hc : c ≠ 0) (hs : 0 < s)
+    (hw : ∀ i < x.length, 0 ≤ w.getD i 0) :
+    IsListProx w (fun z => a * ∑ i ∈ range x.length, w.getD i 0 *
+        (lam * |((List.zipWith (· - ·) z y).map (c * ·)).getD i 0 - gAt g i|)) s x
+      (Fn.prox E (.trans (.leftScale (.argScale (.l1 lam g) c) a) y) w (.sc s) x) := by
+  have hn : ((List.zipWith (· - ·) x y).map (c * ·)).length = x.length := by simp [hy]
+  have hn' : (List.zipWith (· - ·) x y).length = x.length := by simp [hy]
+  have h1 := C07.l1_isListProx E lam (s * a * (c * c)) g w ((List.zipWith (· - ·) x y).map (c * ·))
+    hl (mul_pos (mul_pos hs ha) (mul_self_pos.mpr hc)) (by rw [hn]; exact hw)
+  rw [hn] at h1
+  have h2 := C07.fn_argScale_minimises E (.l1 lam g) c w (List.zipWith (· - ·) x y) (s * a) _ hc
+    (by positivity) h1
+  have h3 := C07.fn_leftScale_minimises E (.argScale (.l1 lam g) c) a w (List.zipWith (· - ·) x y) s _
+    ha hs h2
+  exact C07.fn_trans_minimises E _ y w x s _ hy h3
+
+example := C07.fn_trans_lscale_argscale_l1_minimises (⟨id, 0⟩ : Env ℚ) 1 3 (-2) (1 / 2) (some [1 / 4, 0])
+  [1, -1] [1, 2] [3, 1 / 2] rfl one_pos (by norm_num) (by norm_num) (by norm_num)
+  (by intro i hi; simp at hi; interval_cases i <;> simp)
+
+
 end Group
 
 /-! ## Kullback–Leibler (over ℝ, `np.sqrt` = `Real.sqrt`) -/
